@@ -76,6 +76,10 @@ func (p polySpec) evals() []*big.Int {
 		for i := range f {
 			f[i] = big.NewInt(int64(i%32 + 1 + int(p.Seed%7)))
 		}
+	case "monomial255": // X^255 in evaluation form
+		for i := range f {
+			f[i] = new(big.Int).Exp(big.NewInt(int64(i)), big.NewInt(255), ref.R)
+		}
 	default:
 		panic(hx.Inconclusive{Msg: "unknown polynomial kind " + p.Kind})
 	}
